@@ -30,6 +30,10 @@
         `on_c[3..]` (str index: panics unless 3 <= len and byte 3 is a char boundary) guarded
         by `on_c.starts_with("on_")` (:225) = [str_from 3] under [starts_with ON_PREFIX],
         failure = [PPanic SiteStyleOnSlice] / [PPanic SiteAltOnSlice].
+    Not modelled because they cannot depend on the input: TabExpandedString::new
+    (state.rs:371-381, only `contains`; the `" ".repeat(tab_width)` is lazy, draw time) and,
+    in with_template only, ProgressStyle::new (style.rs:94-108: `width(&progress_chars)` with
+    its assert_eq!/unwrap on the constant "█░" - C14's Builder.v models that one).
     There is no other unwrap/expect/index/slice/arithmetic/cast in from_str_with_tab_width
     (the harness re-counts them in the source on every run, c10.rs [source_inventory]).
     [parse_full] is the three-outcome parser; [parse] (two outcomes, used by C14's Builder.v)
